@@ -174,6 +174,34 @@ def check(case, rec=None):
                 break
         else:
             compare("score_and_assign loop from zero-initialised labels", labels, drlv2, ref1, 1.0, fails)
+        # ---- the notebook helper itself, on the whole table and on a table filtered to the peaks that some grain
+        #      indexes (every peak finds an owner before the last grain is scored), grains in a shuffled order
+        try:
+            from ImageD11.nbGui import nb_utils
+        except Exception:                     # optional gui dependencies missing
+            nb_utils = None
+        if nb_utils is not None and ng >= 1 and n >= 1:
+            import io, contextlib
+            from ImageD11 import columnfile, grain as grainmod
+            claimed = (E < tol * tol * (1 - 1e-9)).any(axis=0)
+            for what, m in (("all peaks", np.ones(n, bool)), ("peaks indexed by some grain only", claimed)):
+                if not m.any():
+                    continue
+                order = perm_rng.permutation(ng).tolist()
+                cfh = columnfile.colfile_from_dict({"gx": gv[m, 0].copy(), "gy": gv[m, 1].copy(), "gz": gv[m, 2].copy()})
+                gl = [grainmod.grain(ubis[i].copy()) for i in order]
+                with contextlib.redirect_stdout(io.StringIO()), contextlib.redirect_stderr(io.StringIO()):
+                    ok, e = guard(nb_utils.assign_peaks_to_grains, gl, cfh, tol)
+                if not ok:
+                    fails.append(exc_failure("nb_utils.assign_peaks_to_grains", e))
+                    break
+                lab = np.asarray(cfh.grain_id)
+                back = np.where(lab >= 0, np.array(order)[np.clip(lab, 0, ng - 1)], -1)     # list position -> grain
+                sub = tuple(x[:, m] if x.ndim == 2 else x[m] for x in ref1)
+                compare("nb_utils.assign_peaks_to_grains (%s, grain order %s)" % (what, order[:6]), back,
+                        np.asarray(cfh.drlv2), sub, 1.0, fails)
+                if fails:
+                    break
         # ---- indexer.fight_over_peaks
         cImageD11.cimaged11_omp_set_num_threads(case["threads"][-1])
         # max_grains limits how many orientations one search pass may add, not how many compete for the peaks
@@ -304,6 +332,12 @@ def build_al(case):
     om = np.concatenate([om, rng.uniform(-180, 180, nsp)])
     own = np.concatenate([own, np.full(nsp, -1)])
     order = rng.permutation(len(sc))
+    if case["seed"] % 3 == 1:
+        # a peak table as a scan delivers it: omega is the frame angle (1 or 0.25 degree steps), rows in acquisition
+        # order, so that consecutive rows share exactly the same omega
+        step = 1.0 if case["seed"] % 2 else 0.25
+        om = np.round(om / step) * step
+        order = order[np.argsort(om[order], kind="stable")]
     return p, UBs, ts, sc[order], fc[order], om[order], own[order]
 
 
